@@ -301,6 +301,23 @@ func (sys *System) Step(name string, choices []uint64) Obs {
 	return obs
 }
 
+// EnvObs builds the observation of an environment action (see EnvAction): outcome "commit" or "abort",
+// the choices it consulted, the elements it picked, and the state afterwards.
+func (sys *System) EnvObs(name string, committed bool, choices []Choice, picks []interface{}) Obs {
+	out := "abort"
+	if committed {
+		out = "commit"
+	}
+	if choices == nil {
+		choices = []Choice{}
+	}
+	if picks == nil {
+		picks = []interface{}{}
+	}
+	return Obs{Proc: name, Label: name, Outcome: out, PC: name, Choices: choices, Picks: picks, Elems: []Elem{},
+		Locals: map[string]interface{}{}, State: sys.State.Snapshot()}
+}
+
 // Close kills every archetype that is still waiting at its gate and waits for its Run to unwind
 // (Run's deferred clean-up closes the resources). Safe to call more than once.
 func (sys *System) Close() {
